@@ -11,8 +11,8 @@ RULE = ("one case = one seed = (generated spec with 2-8 inline/builtin meshes, 1
         "re-use a compiled fusestatic spec, nothing else is tolerated); a case is non-trivial when "
         ">=2 simulated threads were runnable at once; distinct = distinct hash of the scheduling trace")
 ASSUME = [
+    "mesh files are binary MSH buffers in a VFS (OBJ/STL decoders are plugins outside the build); the global asset cache is in play and is emptied before each case and before a seeded subset of its steps",
     "qhull, lodepng and MarchingCubes are stand-ins (the hull stand-in is a deterministic incremental hull): the property checked is schedule- and copy-independence of whatever the tree computes, not mesh content",
-    "assets are inline/builtin (no files), so the global asset cache is not in play",
     "sequentially consistent execution; unsynchronised accesses in the compiler are found by the TSan-in-the-loop stage",
     "mj_recompile is exercised with an unchanged spec (state components all still exist)",
 ]
